@@ -304,7 +304,11 @@ def main():
             continue
         shrunk += 1
         path = os.path.join(REPLAYS, f"{prop}-{seed}-{idx}.replay")
-        r = sh([exe, "shrink", "--check", prop, "--seed", str(seed), "--index", str(idx), "--tier", tier, "--oracle", oracle, "--out", path], timeout=900)
+        shrink_cmd = [exe, "shrink", "--check", prop, "--seed", str(seed), "--index", str(idx), "--tier", tier, "--oracle", oracle, "--out", path]
+        r = sh(shrink_cmd, timeout=900)
+        if r.returncode not in (0, 1, 2):
+            # a neighbouring candidate (or the run itself, later on) ends the process: minimise in forked children
+            r = sh(shrink_cmd + ["--fork", "1"], timeout=1800)
         if r.returncode == 2 or "NONDETERMINISTIC" in r.stdout:
             print(f"HARNESS: index {idx} is not deterministic in-process ({oracle})")
             exit_code = max(exit_code, 2)
